@@ -153,7 +153,7 @@ def tlc(module, cfg, env=None, workers="1", timeout=900, extra=(), depthfirst=Fa
     m = re.search(r"depth of the complete state graph search is (\d+)", out)
     if m:
         stats["depth"] = int(m.group(1))
-    m = re.search(r"(\d+) states left on queue", out)
+    m = re.search(r"\d+ states generated, \d+ distinct states found, (\d+) states left on queue", out)   # the final summary line
     if m:
         stats["left_on_queue"] = int(m.group(1))
     stats["ok"] = "Model checking completed. No error has been found." in out
@@ -274,13 +274,33 @@ def split_traces(trace_p):
 def conformance(scn_by_name, traces):
     """Model behaviours replayed on the real code (family conform / witness): how many were followed to the end of the script and
     whether the state predicted by the model agrees with the observed one there."""
-    st = {"model_behaviours_replayed": 0, "followed_to_end": 0, "final_state_agrees": 0, "script_steps": 0, "disagreements": []}
+    st = {"model_behaviours_replayed": 0, "followed_to_end": 0, "final_state_agrees": 0, "script_steps": 0,
+          "quiescent_points_compared": 0, "quiescent_points_agreeing": 0, "disagreements": []}
     for name, evs in traces.items():
         sc = scn_by_name.get(name)
         if not sc or not sc.get("script"):
             continue
         st["model_behaviours_replayed"] += 1
         st["script_steps"] += len(sc["script"])
+        # state comparison at every point where the model lets time pass (it is quiescent there), up to the first divergence
+        snaps = {}
+        for e in evs:
+            if e.get("ev") == "snap":
+                snaps[e["i"]] = e
+            elif e.get("ev") in ("script_miss", "script_end"):
+                break
+            elif e.get("ev") == "script_at":
+                good = True
+                for i, x in (e.get("exp") or {}).items():
+                    sn = snaps.get(i)
+                    if x["life"] == "stopping" or sn is None:
+                        continue
+                    if bool(sn["leader"]) != bool(x["leader"]) or sn["state"] != x["state"]:
+                        good = False
+                        st["disagreements"].append({"scenario": name, "step": e.get("step"), "instance": i, "model": x,
+                                                    "real": {"leader": sn["leader"], "state": sn["state"]}})
+                st["quiescent_points_compared"] += 1
+                st["quiescent_points_agreeing"] += good
         end = next((e for e in evs if e.get("ev") == "script_end"), None)
         if not end or end.get("aborted"):
             continue
